@@ -200,6 +200,12 @@ Formats:
 
 	for _, m := range ms.Modules {
 		if mods[m.Name] == nil {
+			// Several revisions of a module may have been read; print
+			// the one that its name denotes (the most recent one)
+			// rather than whichever the map yields first.
+			if cur := ms.Modules[m.Name]; cur != nil {
+				m = cur
+			}
 			mods[m.Name] = m
 			names = append(names, m.Name)
 		}
